@@ -9,16 +9,27 @@ CRATES["m2"] = {
         ("src/skin.rs", "m2/skin.rs", "verif_kani_skin", ""),
         ("src/anim.rs", "m2/anim.rs", "verif_kani_anim", ""),
         ("src/model.rs", "m2/model.rs", "verif_kani_model", ""),
+        ("src/model.rs", "m2/relocate.rs", "verif_kani_relocate", ""),
+        ("src/lib.rs", "env/vmap.rs", "verif_vmap", "pub(crate)"),
     ],
     # wow-m2 depends on wow-blp -> image (default features pull rav1e, which Kani's rustc cannot build)
     "rewrite": [("../wow-blp/Cargo.toml", r'^image\s*=.*$',
-                 'image = { version = "0.25", default-features = false, features = ["png", "jpeg"] }')],
+                 'image = { version = "0.25", default-features = false, features = ["png", "jpeg"] }'),
+                # scratch copy only: the old-offset -> new-offset relocation maps of model.rs become the association-list model
+                ("src/model.rs", r"^use std::collections::HashMap;$",
+                 "#[cfg(kani)] use crate::verif_vmap::VMap as HashMap;\n#[cfg(not(kani))] use std::collections::HashMap;"),
+                ("src/model.rs", r"^(\s*)use std::collections::hash_map::Entry;$",
+                 r"\1#[cfg(kani)] use crate::verif_vmap::Entry;\n\1#[cfg(not(kani))] use std::collections::hash_map::Entry;")],
     # size constants the writers hard-code, taken from the copied sources (an anchor that no longer matches -> exit 2)
     "extract": [{
         "out": "m2/consts_gen.rs",
         "consts": [
-            ("ANIM_SIZE_V256", _M2SRC, r'let anim_size = if header\.version <= 256 \{ (\d+) \} else \{ \d+ \};', "usize"),
-            ("ANIM_SIZE_TBC", _M2SRC, r'let anim_size = if header\.version <= 256 \{ \d+ \} else \{ (\d+) \};', "usize"),
+            # the sequence-table rule of M2Model::write: `if header.version <OP> <N> { A } else { B }` - operator and threshold are
+            # extracted too, so that the whole rule (not only A and B) is decided against M2Animation::write (c13b_sequence_size_rule)
+            ("ANIM_SIZE_V256", _M2SRC, r'let anim_size = if header\.version <=? \d+ \{ (\d+) \} else \{ \d+ \};', "usize"),
+            ("ANIM_SIZE_TBC", _M2SRC, r'let anim_size = if header\.version <=? \d+ \{ \d+ \} else \{ (\d+) \};', "usize"),
+            ("ANIM_SIZE_OP", _M2SRC, r'let anim_size = if header\.version (<=?) \d+ \{ \d+ \} else \{ \d+ \};', "&str"),
+            ("ANIM_SIZE_SPLIT", _M2SRC, r'let anim_size = if header\.version <=? (\d+) \{ \d+ \} else \{ \d+ \};', "u32"),
             ("BONE_SIZE_V256", _M2SRC, r'let bone_size = if header\.version < 260 \{\s*(\d+)', "usize"),
             ("BONE_SIZE_TBC", _M2SRC, r'let bone_size = if header\.version < 260 \{[^}]*\} else if header\.version < 264 \{\s*(\d+)', "usize"),
             ("BONE_SIZE_WOTLK", _M2SRC,
@@ -108,6 +119,11 @@ H("C13", "m2", _RC, "quick", "C13.b sequence record: size == the 32/52 the write
   ["chunks::animation::M2Animation::{parse,write}", "chunks::animation::M2Range::{parse,write}", "model::M2Model::write (anim_size constant)"],
   "record bytes fully symbolic (40/60-byte buffer)", "one record per version number 256, 257, 259 (right behind the switch of M2Model::write), 260, 264, 272",
   assumes=["v256: start_timestamp <= u32::MAX - 1000 (known finding KF-C13-sequence-start-overflow)", _CONSTS], stubs=[FMT])
+H("C13", "m2", _RC, "quick", "C13.b sequence table: the size rule of M2Model::write (operator, threshold and both sizes taken from model.rs) == bytes M2Animation::write/parse move, for every legacy version number",
+  ["c13b_sequence_size_rule"],
+  ["chunks::animation::M2Animation::{parse,write}", "model::M2Model::write (anim_size rule)"],
+  "version symbolic in 256..=264, record bytes fully symbolic", "one record",
+  assumes=["start_timestamp <= u32::MAX - 1000 (known finding KF-C13-sequence-start-overflow)", _CONSTS], stubs=[FMT])
 H("C13", "m2", _RC, "quick", "C13.b witness: Vanilla sequence with start_timestamp = u32::MAX", ["c13b_sequence_start_overflow_witness"],
   ["chunks::animation::M2Animation::write"], "concrete", "one input", stubs=[FMT], expect="witness:KF-C13-sequence-start-overflow")
 H("C13", "m2", _RC, "thorough", "C13.b sequence written in the other layout (conversion): size the writer assumes, shared fields kept",
@@ -269,3 +285,12 @@ H = _H13_orig
 H("C13", "m2", _RC, "quick", "C13.f converting a bone to another version keeps identity, parent, flags, pivot and (for targets TBC+) the name CRC",
   ["c13f_bone_convert_keeps_common_content"], ["chunks::bone::M2Bone::convert"],
   "bone scalar fields and name CRC symbolic, target version in Vanilla..Legion symbolic", "one bone (tracks empty)", stubs=["std::fmt::format -> String::new()"])
+
+# =============================================================================== C13.g preserved key-frame relocation
+_RL = "verif_kani_relocate"
+_VM13 = "HashMap<u32,u32> (old offset -> new offset) -> association-list model in the scratch copy (catalogue rewrite of model.rs)"
+H("C13", "m2", _RL, "quick", "C13.g preserved key-frame data: after relocate_bone_track_offsets no track array carries an offset of the old file - moved to the mapped offset with its count, or the track is emptied",
+  ["c13g_bone_relocation_pre_wotlk", "c13g_bone_relocation_wotlk"], ["model::relocate_bone_track_offsets (relocate_or_zero_track)"],
+  "three tracks: count and offset of time stamps, values and (pre-WotLK) ranges all symbolic; relocation map of 1..=3 entries, keys and values symbolic",
+  "one bone, map of <= 3 entries", stubs=[FMT, _VM13], timeout=900)
+H("C13", "m2", _RL, "quick", "canary", ["c13g_canary"], ["model::relocate_bone_track_offsets"], "vacuity twin", "-", expect="canary", stubs=[FMT, _VM13])
